@@ -90,3 +90,24 @@ PROPS['C04'] = dict(
     level_text='generated operation histories on vector and buffer against an abstract sequence, with extreme indices/counts and both capacity states constructed on purpose; sampling, not proof',
     level_note='trusts the std::vector model in exec/C04.cc and ASan for ownership of returned pointers; histories <= 300 ops',
 )
+
+PROPS['C05'] = dict(
+    level='exploration',
+    rule='three executors. list: pool of 24 nodes, two rings, <= 300 ops (add_next/add_prev/add_node at any ring position, del_node/del_next/del_prev of real nodes, rot_next/rot_prev on any '
+         'length incl. 0/1, mov_next/mov_prev of a non-empty ring followed by a_list_init, set_node, swap_node of distinct non-adjacent nodes in one ring or across rings, section '
+         'del_/add_/set_/swap_ on disjoint non-adjacent sections); slist: add_head/add_tail/add/del/del_head/rot/mov on two lists incl. empty and one-element lists; que: two queues, '
+         'element sizes {0->1,1,2,3,4,8,12,16}, push/pull either end, insert/remove with indices up to SIZE_MAX, at() for negative/huge indices, push_sort, push+sort_fore/sort_back on sorted '
+         'contents, element swap (non-adjacent or identity), whole-queue swap, drop, setz, foreach; after every op both rings are walked forwards and backwards against the model, element '
+         'addresses must stay fixed and a pushed slot must not alias an enqueued element. non-trivial = list: a cross-ring swap or a section op; slist: a rot/mov on length <= 1 AND one on '
+         'length >= 3; que: a pull followed by >= 2 pushes (recycling) or a whole-queue swap with a non-empty side. distinct = hash of the decoded op bytes and positions',
+    assumptions=COMMON_ASSUME + ['preconditions respected by construction and counted under excluded_by_construction: swaps only on distinct non-adjacent nodes/sections, a_list_mov_* only from a non-empty ring '
+                                 'that is re-initialised afterwards, a_slist_mov followed by a_slist_dtor of the source (as the repository tests do), element swap across queues only for equal element sizes'],
+    units=lambda tier, seed: [Unit('list', 'exec/C05_list.cc', [], exec_defs=['-DVP_SUB=1'], tape_len=300),
+                              Unit('slist', 'exec/C05_list.cc', [], exec_defs=['-DVP_SUB=2'], tape_len=200),
+                              Unit('que', 'exec/C05_que.cc', ['a.c', 'que.c'], tape_len=300)],
+    plan={'quick': dict(rc_procs=3, rc_cases=15000, fuzz_procs=2, fuzz_secs=25),
+          'thorough': dict(rc_procs=4, rc_cases=150000, fuzz_procs=3, fuzz_secs=240)},
+    technique='model-based stateful property-based testing (rapidcheck choice tapes; std::vector/std::deque models; ring walks in both directions after every op) + coverage-guided libFuzzer under ASan/UBSan with an allocator ledger',
+    level_text='generated operation histories on intrusive lists, singly linked lists and the queue against abstract sequences; sampling, not proof',
+    level_note='trusts the models in exec/C05_*.cc; pool of 24 list nodes, histories <= 300 ops',
+)
